@@ -128,8 +128,8 @@ func (Engine) Generate(prop string, r *kit.Rand, tier string) *kit.Scenario[Conf
 				// ... or the whole pipeline of a forwarding thread: an Interest from face Face (Cost, if not 0, is the
 				// next hop the consumer chose), then the Data that answers it from face Origin
 				o.Op, o.Face, o.Cost, o.Origin = "fwd", uint64(r.Range(1, 3)), uint64(r.Intn(4)), uint64(r.Range(1, 3))
-				if r.Chance(0.35) {
-					o.Name = "/localhost/sched" // the scope rules look at the faces once more
+				if r.Chance(0.45) {
+					o.Name = kit.Pick(r, []string{"/localhost/sched", "/localhost/sched", "/localhop/sched"}) // the scope rules look at the faces once more
 				}
 			}
 		case 8:
